@@ -193,8 +193,10 @@ class Router:
     def deliver_message(self, message):
         from qmi.core.exceptions import QMI_MessageDeliveryException
         tag = "deliver" if (self.in_read and not self.sock.closed) else "fail"
-        self.log.append((tag, canon(message), full(message)))
         obj = getattr(getattr(message, "destination_address", None), "object_id", None)
+        if tag == "fail" and obj in self.rejects:
+            tag = "refused"     # a locally generated error reply whose requester has no handler any more
+        self.log.append((tag, canon(message), full(message)))
         if obj in self.rejects:
             raise QMI_MessageDeliveryException("no handler %r" % (obj,))
         if obj == "crash" and tag == "deliver":
@@ -463,8 +465,8 @@ def expected(case, obs):
     pending = {}
 
     def close():
-        for rid, (src, dst) in pending.items():
-            ex["fail"].append((rid, src))
+        for rid, (src, dst) in pending.items():      # EVERY pending request, whatever happens to the others
+            ex["fail"].append((rid, src, src[1] in rejects))
         pending.clear()
         state["open"] = False
         ex["closed"] = True
@@ -512,12 +514,13 @@ def expected(case, obs):
             src = (d["src"][0], d["src"][1])
             if not state["open"]:
                 if isreq:
-                    ex["fail"].append((d["id"], src))
-            elif state["peer"] is None:
-                pass
+                    ex["fail"].append((d["id"], src, src[1] in rejects))
+            elif state["peer"] is None:              # not connected yet as far as the router can tell
+                if isreq:
+                    ex["fail"].append((d["id"], src, src[1] in rejects))
             elif obs["szs"].get(idx, 0) > maxsz:
                 if isreq:
-                    ex["fail"].append((d["id"], src))
+                    ex["fail"].append((d["id"], src, src[1] in rejects))
             else:
                 ex["sent"] += 1
                 if isreq:
@@ -530,7 +533,7 @@ def oracle(case, obs):
     """C06 on the implementation's observations; None or (key, description)."""
     ev = obs["events"]
     for e in ev:
-        if e[0] in ("deliver", "fail", "sent") and e[1][0] == "weird":
+        if e[0] in ("deliver", "fail", "refused", "sent") and e[1][0] == "weird":
             return ("malformed-message-object", "a %s message has an unexpected shape: %r" % (e[0], e[1][1]))
     ex = expected(case, obs)
     got_deliver = [e[2] for e in ev if e[0] == "deliver"]
@@ -555,14 +558,22 @@ def oracle(case, obs):
         return ("open-but-unregistered", "socket open but in peer map=%r reader=%r wrappers=%r" % flags)
     got_fail = []
     for e in ev:
-        if e[0] == "fail":
+        if e[0] in ("fail", "refused"):
             kind, src, dst, _ = e[1]
             if kind[0] != "R" or not kind[2]:
                 return ("fail-not-error-reply", "a non-error message was generated locally: %r" % (e[1],))
-            got_fail.append((kind[1], dst))
-    if got_fail != ex["fail"]:
-        return ("pending-fail", "error replies for pending requests %r, the property demands exactly %r"
-                % (got_fail, ex["fail"]))
+            got_fail.append((kind[1], dst, e[0] == "refused"))
+    # the clause itself: every pending request whose requester can still be reached gets exactly one
+    # delivery error, regardless of the requests whose error reply the router refuses
+    got_ok = [x[:2] for x in got_fail if not x[2]]
+    exp_ok = [x[:2] for x in ex["fail"] if not x[2]]
+    if got_ok != exp_ok:
+        lost = [x for x in exp_ok if x not in got_ok]
+        return ("pending-fail", "error replies delivered for pending requests %r, the property demands exactly %r"
+                "%s (refused by the router meanwhile: %r)"
+                % (got_ok, exp_ok, "; never failed: %r" % (lost,) if lost else "",
+                   [x[:2] for x in got_fail if x[2]]))
+    # (which refused deliveries were attempted is not part of the property; the model comparison covers it)
     if not obs["closed"] and obs["pending"] != ex["pending"]:
         return ("pending-table", "pending table %r, expected %r" % (obs["pending"], ex["pending"]))
     got_senterr = [e[1][0][1] for e in ev if e[0] == "sent" and e[1][0][0] == "R" and e[1][0][2]]
@@ -604,10 +615,11 @@ def c_msg(cm, I):
 
 
 def c_event(e, I):
-    if e[0] in ("deliver", "fail", "sent"):
+    if e[0] in ("deliver", "fail", "refused", "sent"):
         if e[1][0] == "weird":
             return "EOutOfFuel"
-        return "%s %s" % ({"deliver": "EDeliver", "fail": "EFail", "sent": "ESent"}[e[0]], c_msg(e[1], I))
+        return "%s %s" % ({"deliver": "EDeliver", "fail": "EFail", "refused": "ERefused", "sent": "ESent"}[e[0]],
+                          c_msg(e[1], I))
     if e[0] == "error":
         return "EError %s" % e[1] if e[1] in ERR_KINDS else "EOutOfFuel"
     if e[0] == "assert":
@@ -931,10 +943,73 @@ def gen_cases(ck):
                                fault=rng.choice([None, None, "marker", "forged_src", "trunc_eof", "len_max1"]),
                                fpos=rng.randint(1, nm + 1), seg=rng.choice(["one", "random", "header", "frames"]),
                                nsends=rng.choice([0, 1]), bucket="large"))
+    # G: connection lost with n requests pending while the router refuses the error replies of a subset of
+    #    the requesters (every subset for small n, every single position for larger n) x cause of the loss
+    cases += close_refusal_cases(rng, thorough)
     # F: the real limit: a frame of exactly MAX_MESSAGE_SIZE bytes is delivered, MAX+1 is refused
     for exact in ([True, False] if not thorough else [True, False, True, False]):
         cases.append(limit_case(rng, exact))
     return cases
+
+
+CLOSE_CAUSES = ["eof", "disc", "marker", "forged_src", "garbage_framed", "len_max1"]
+
+
+def close_refusal_case(rng, incoming, n, refused, cause, answered=None, seg="one"):
+    """n requests pending (requesters q0..q{n-1}, table order = send order); the router has no handler
+    any more for the requesters whose index is in `refused`; then the connection is lost by `cause`.
+    Every other pending request must still get exactly one error reply."""
+    peer = "peerctx"
+    alias = "$client_1" if incoming else peer
+    rejects = ["q%d" % i for i in sorted(refused)] + ["gone"]
+    hs = wire({"k": "hs", "src": [peer], "srv": not incoming})
+    pre = b""
+    if answered is not None:
+        pre = wire({"k": rng.choice(["rep", "err"]), "src": [peer, "s1"], "dst": [LOCAL, "q%d" % answered],
+                    "id": "c%d" % answered, "body": 1})
+    bad = b"" if cause in ("eof", "disc") else fault_item(rng, cause, peer, incoming, alias, REAL_MAX)
+    tail = wire(rand_peer_msg(rng, peer)) if bad else b""
+    stream = hs + pre + bad + tail
+    script = [["send", {"k": "hs", "src": [LOCAL, "$router"], "srv": incoming}], ["recv", len(hs)]]
+    for i in range(n):
+        script.append(["send", {"k": "req", "src": [LOCAL, "q%d" % i], "dst": [alias, rng.choice(["s1", "s2"])],
+                                "id": "c%d" % i, "body": rng.choice([0, 5])}])
+    rest = len(stream) - len(hs)
+    if rest:
+        if seg == "bytes":
+            script += [["recv", 1] for _ in range(rest)]
+        elif seg == "random":
+            script += cuts_to_script(rest, [rng.randint(1, max(1, rest - 1)) for _ in range(3)])
+        else:
+            script.append(["recv", rest])
+    if cause == "eof":
+        script.append(["eof"])
+    elif cause == "disc":
+        script.append(["disc"])
+    script.append(["send", {"k": "req", "src": [LOCAL, rng.choice(["q0", "f1"])], "dst": [alias, "s1"],
+                            "id": "late", "body": 0}])
+    return {"incoming": incoming, "peer": peer, "max": None, "rejects": rejects, "stream": stream.hex(),
+            "script": script, "bucket": "close-refusals", "fault": cause if bad else "none", "seg": seg,
+            "refused": "%d-of-%d" % (len(refused), n)}
+
+
+def close_refusal_cases(rng, thorough):
+    import itertools
+    out = []
+    for n in (1, 2, 3, 4, 5, 6):
+        subsets = []
+        for r in range(n + 1):
+            subsets += [set(x) for x in itertools.combinations(range(n), r)]
+        if n >= 5 and not thorough:     # every single position, every all-but-one, none, all, some random
+            subsets = [x for x in subsets if len(x) in (0, 1, n - 1, n)] + rng.sample(subsets, 6)
+        for refused in subsets:
+            causes = CLOSE_CAUSES if (n <= 3 or thorough) else rng.sample(CLOSE_CAUSES, 2)
+            for cause in causes:
+                for incoming in ((True, False) if (n <= 4 or thorough) else (rng.random() < 0.5,)):
+                    answered = rng.randrange(n) if rng.random() < 0.25 else None
+                    out.append(close_refusal_case(rng, incoming, n, refused, cause, answered,
+                                                  rng.choice(["one", "one", "random", "bytes"])))
+    return out
 
 
 def limit_case(rng, exact):
@@ -1008,6 +1083,9 @@ def run(ck):
         ck.count("seg:" + case["seg"])
         ck.count("dir:" + ("incoming" if case["incoming"] else "outgoing"))
         ck.count("outcome:" + ("closed" if obs["closed"] else "open"))
+        if "refused" in case:
+            ck.count("close-refused:" + case["refused"])
+        ck.count("refused-error-replies:%d" % min(3, sum(1 for e in obs["events"] if e[0] == "refused")))
         for e in obs["events"]:
             if e[0] == "error":
                 ck.count("error:" + str(e[1]))
@@ -1051,6 +1129,7 @@ def run(ck):
                    "broken": "correspondence C06.Corr.check_case"}, found_input=bool(why))
     return ck.finish("structured sweeps (every cut position near headers of a clean stream; every fault kind x "
                      "position x segmentation x direction) + seeded random scripts + small-MAX boundary cases + "
+                     "connection loss with 1-6 pending requests x refused requester subsets x cause + "
                      "large payloads (python oracle only); non-trivial = something delivered or connection closed; "
                      "distinct by content hash of (stream, script, direction, max)")
 
